@@ -3,7 +3,7 @@
    positions, so that "Z stays with Z and M with M" and order independence are part of the definition.
    A geometry is [l |-> layout, cs |-> sequence of coords]; ordinates are small integers.
    INF stands for +Inf, -INF for -Inf (the recorder maps the float infinities to these). *)
-EXTENDS Integers, Sequences, FiniteSets
+EXTENDS Integers, Sequences, FiniteSets, Intervals        \* Intervals: Meets / Overlap / OverlapPt (with TLAPS proofs in proofs/)
 
 INF == 99
 Dims(l) == CASE l = "XY" -> <<"x", "y">> [] l = "XYZ" -> <<"x", "y", "z">> [] l = "XYM" -> <<"x", "y", "m">>
@@ -24,10 +24,17 @@ Tight(l0, gs) ==
    min |-> [k \in DOMAIN ds |-> SetMin(UNION {Vals(gs[i], ds[k]) : i \in DOMAIN gs})],
    max |-> [k \in DOMAIN ds |-> SetMax(UNION {Vals(gs[i], ds[k]) : i \in DOMAIN gs})]]
 IsEmptyBox(b) == b.l = "No" \/ \E k \in DOMAIN b.min : b.max[k] < b.min[k]
-\* closed-interval arithmetic: [lo1, hi1] and [lo2, hi2] share a value
-Meets(lo1, hi1, lo2, hi2) == lo1 <= hi1 /\ lo2 <= hi2 /\ (IF lo1 >= lo2 THEN lo1 ELSE lo2) <= (IF hi1 <= hi2 THEN hi1 ELSE hi2)
-Overlap(n, min1, max1, min2, max2) == \A k \in 1..n : Meets(min1[k], max1[k], min2[k], max2[k])
-OverlapPt(n, min1, max1, p) == \A k \in 1..n : Meets(min1[k], max1[k], p[k], p[k])
+\* Bounds.Polygon: the corners of the XY rectangle of a box (a set: a degenerate box has fewer than four)
+Corners(b) == {<<b.min[1], b.min[2]>>, <<b.min[1], b.max[2]>>, <<b.max[1], b.min[2]>>, <<b.max[1], b.max[2]>>}
+\* GeoJSON bounding box (RFC 7946 section 5) over the first n dimensions of a box: all minima, then all maxima
+BBoxOf(b, n) == [k \in 1..(2 * n) |-> IF k <= n THEN b.min[k] ELSE b.max[k - n]]
+\* the overlap tests take a layout argument: it addresses the boxes' dimensions by position.  A box layout bl AGREES
+\* with the argument l when bl has those positions and they carry the same named dimensions (XY with every layout,
+\* XYZ with XYZM, ...).  bl merely COVERS l when it has the named dimensions at other positions (XYM inside XYZM).
+AgreesWith(l, bl) == Len(Dims(bl)) >= Len(Dims(l)) /\ \A k \in DOMAIN Dims(l) : Dims(bl)[k] = Dims(l)[k]
+CoversL(l, bl) == Len(Dims(bl)) >= Len(Dims(l)) /\ DimSet(l) \subseteq DimSet(bl)
+IdxOf(l, d) == CHOOSE k \in DOMAIN Dims(l) : Dims(l)[k] = d
+ByName(l, bl, v) == [k \in DOMAIN Dims(l) |-> v[IdxOf(bl, Dims(l)[k])]]          \* the ordinates of v (layout bl) named by l
 \* leaves of a collection tree: a node is [l, cs] (leaf) or [gc |-> sequence of nodes]
 RECURSIVE Leaves(_)
 Leaves(t) == IF "gc" \in DOMAIN t
@@ -35,4 +42,8 @@ Leaves(t) == IF "gc" \in DOMAIN t
                       Cat(s, i) == IF i > Len(s) THEN <<>> ELSE Leaves(s[i]) \o Cat(s, i + 1)
                   IN Cat(t.gc, 1)
              ELSE <<t>>
+\* leaves of a sequence of nodes (leaves or collection trees), in order
+RECURSIVE LeavesAll(_)
+LeavesAll(ts) == IF ts = <<>> THEN <<>> ELSE Leaves(ts[1]) \o LeavesAll(Tail(ts))
+HasCoords(gs) == \E i \in DOMAIN gs : gs[i].cs # <<>>
 ====
